@@ -1,5 +1,5 @@
 (* Model/AsyncIo.v — transliteration of minicbor-io/src/async_reader.rs (AsyncReader::read_with) and
-   async_writer.rs (AsyncWriter::write_with / sync).  Definitions only (proofs: Proofs/AsyncIoFacts.v).
+   async_writer.rs (AsyncWriter::write_with / sync / flush / set_max_len).  Definitions only (proofs: Proofs/AsyncIoFacts.v).
 
    What is modelled.  `self` of the reader / writer (state enum, buffer, max_len) is a record.  The
    future returned by `read_with` / `write_with` / `sync` is a separate value (`rfut`, `wfut`, `sfut`):
@@ -325,6 +325,143 @@ Fixpoint aw_run (calls : list ctok) (es : list enc_res) (w : awriter) (k : asink
   end.
 
 (* ------------------------------------------------------------------------------------------ *)
+(* The two other public operations of AsyncWriter a caller may interleave: flush and set_max_len.
+
+   The inner AsyncWrite has a second scripted method, poll_flush: one token per inner poll_flush (Ready(Ok) /
+   Pending / Ready(Err)); when the script is exhausted it is Ready(Ok).  The whole inner object is the pair
+   `osink` of the poll_write part (the `asink` above, unchanged) and the poll_flush part. *)
+Inductive ftok := KfReady | KfPend | KfErr.
+Record fsink := mkfsink { kf_sched : list ftok; kf_calls : N }.
+Record osink := mkosink { os_w : asink; os_f : fsink }.
+
+(* one `poll_flush(cx)` of the scripted inner object: it touches only its own script *)
+Definition osink_poll_flush (s : osink) : ftok * osink :=
+  match kf_sched (os_f s) with
+  | [] => (KfReady, mkosink (os_w s) (mkfsink [] (kf_calls (os_f s) + 1)))
+  | t :: r => (t, mkosink (os_w s) (mkfsink r (kf_calls (os_f s) + 1)))
+  end.
+
+Inductive flres := FlOk | FlErr (e : io_err) | FlDropped | FlFuel.   (* Result<(), Error> of flush / future dropped *)
+Inductive flpoll := FlReady (r : flres) | FlPending.
+
+(* async_writer.rs:123-126  one Future::poll of the flush future: `self.writer.flush().await?; Ok(())`.
+   futures_util's Flush future calls poll_flush once per poll and holds nothing but the writer reference
+   (futures-util 0.3 src/io/flush.rs), so a fresh and a resumed flush future poll alike.  Neither
+   self.buffer nor self.state nor self.max_len is read or written. *)
+Definition aw_flush_poll (w : awriter) (s : osink) : flpoll * awriter * osink :=
+  let '(t, s1) := osink_poll_flush s in
+  match t with
+  | KfReady => (FlReady FlOk, w, s1)
+  | KfPend => (FlPending, w, s1)
+  | KfErr => (FlReady (FlErr IoInner), w, s1)                          (* :124 `?` *)
+  end.
+
+(* one call of flush under a caller script: after every Pending poll again (CPoll, default) or drop the future *)
+Fixpoint aw_flush_call (fuel : nat) (cs : list ctok) (w : awriter) (s : osink) : flres * awriter * osink :=
+  match fuel with
+  | O => (FlFuel, w, s)
+  | S f =>
+      match aw_flush_poll w s with
+      | (FlReady r, w1, s1) => (r, w1, s1)
+      | (FlPending, w1, s1) =>
+          match cs with
+          | CDrop :: _ => (FlDropped, w1, s1)
+          | CPoll :: c => aw_flush_call f c w1 s1
+          | [] => aw_flush_call f [] w1 s1
+          end
+      end
+  end.
+
+(* async_writer.rs:42-44  set_max_len(val: u32): self.max_len = val as usize  (64-bit usize: the cast is the identity) *)
+Definition aw_set_max_len (w : awriter) (v : N) : awriter := mkawriter (aw_buf w) v (aw_state w).
+
+(* a caller operation other than write / sync, issued while the caller holds no pending future *)
+Inductive cop := OpFlush (cs : list ctok) | OpSetMax (v : N).
+(* what the caller observes: the events of write / sync as before, the result of a flush call, a set_max_len call *)
+Inductive oev := OEvW (e : wev) | OEvF (r : flres) | OEvM (v : N).
+
+Definition aw_op (op : cop) (w : awriter) (s : osink) : oev * awriter * osink :=
+  match op with
+  | OpFlush cs => let '(r, w1, s1) := aw_flush_call (length (kf_sched (os_f s)) + 1) cs w s in (OEvF r, w1, s1)
+  | OpSetMax v => (OEvM v, aw_set_max_len w v, s)
+  end.
+
+Fixpoint aw_ops (ops : list cop) (w : awriter) (s : osink) : list oev * awriter * osink :=
+  match ops with
+  | [] => ([], w, s)
+  | op :: t => let '(ev, w1, s1) := aw_op op w s in
+               let '(evs, w2, s2) := aw_ops t w1 s1 in (ev :: evs, w2, s2)
+  end.
+
+(* The caller's operations come as a stream of gaps: one entry (a list of operations, possibly empty) is
+   consumed at every point at which the caller holds no pending future and is about to issue a call of the
+   protocol - before each write, before each (re-)issued sync (after a dropped or failed write, after a dropped
+   or failed sync), before the final sync.  An exhausted stream yields empty gaps. *)
+Definition take_gap (gaps : list (list cop)) : list cop * list (list cop) :=
+  match gaps with [] => ([], []) | g :: t => (g, t) end.
+
+Definition with_sink (s : osink) (k : asink) : osink := mkosink k (os_f s).
+
+(* aw_session with a gap before every (re-)issued sync.  `to_sync` is that step. *)
+Fixpoint aw_session_ops (fuel : nat) (calls : list ctok) (gaps : list (list cop)) (m : wmode) (e : enc_res)
+    (w : awriter) (s : osink) : list oev * list ctok * list (list cop) * awriter * osink :=
+  match fuel with
+  | O => ([OEvW (EvS SFuel)], calls, gaps, w, s)
+  | S f =>
+      let to_sync (pre : list oev) (c : list ctok) (w1 : awriter) (s1 : osink) :=
+        let '(g, gaps1) := take_gap gaps in
+        let '(gevs, w2, s2) := aw_ops g w1 s1 in
+        let '(evs, c', g', w3, s3) := aw_session_ops f c gaps1 (MSync SStart) e w2 s2 in
+        (pre ++ gevs ++ evs, c', g', w3, s3) in
+      match m with
+      | MWrite fu =>
+          match aw_poll (asink_fuel (os_w s)) fu e w (os_w s) with
+          | (WReady (WErr er), w1, k1) => to_sync [OEvW (EvW (WErr er))] calls w1 (with_sink s k1)
+          | (WReady r, w1, k1) => ([OEvW (EvW r)], calls, gaps, w1, with_sink s k1)
+          | (WPend, w1, k1) =>
+              match calls with
+              | CDrop :: c => to_sync [] c w1 (with_sink s k1)
+              | CPoll :: c => aw_session_ops f c gaps (MWrite WfInSync) e w1 (with_sink s k1)
+              | [] => aw_session_ops f [] gaps (MWrite WfInSync) e w1 (with_sink s k1)
+              end
+          end
+      | MSync fu =>
+          match sync_poll (asink_fuel (os_w s)) fu w (os_w s) with
+          | (SyReady (SErr er), w1, k1) => to_sync [OEvW (EvS (SErr er))] calls w1 (with_sink s k1)
+          | (SyReady r, w1, k1) => ([OEvW (EvS r)], calls, gaps, w1, with_sink s k1)
+          | (SyPend, w1, k1) =>
+              match calls with
+              | CDrop :: c => to_sync [] c w1 (with_sink s k1)
+              | CPoll :: c => aw_session_ops f c gaps (MSync SAtWrite) e w1 (with_sink s k1)
+              | [] => aw_session_ops f [] gaps (MSync SAtWrite) e w1 (with_sink s k1)
+              end
+          end
+      end
+  end.
+
+(* one value: the gap before the write, then the session.  Result: (events of the gap, events of the session) *)
+Definition aw_write_call_ops (calls : list ctok) (gaps : list (list cop)) (e : enc_res) (w : awriter) (s : osink)
+  : (list oev * list oev) * list ctok * list (list cop) * awriter * osink :=
+  let '(g, gaps1) := take_gap gaps in
+  let '(pre, w1, s1) := aw_ops g w s in
+  let '(evs, c', g', w2, s2) := aw_session_ops (2 * length (k_sched (os_w s1)) + 4) calls gaps1 (MWrite WfStart) e w1 s1 in
+  ((pre, evs), c', g', w2, s2).
+
+(* all values in order, then a last gap and one sync on the idle writer *)
+Fixpoint aw_run_ops (calls : list ctok) (gaps : list (list cop)) (es : list enc_res) (w : awriter) (s : osink)
+  : list (list oev * list oev) * list oev * spoll * awriter * osink :=
+  match es with
+  | [] => let '(g, _) := take_gap gaps in
+          let '(gevs, w1, s1) := aw_ops g w s in
+          let '(sp, w2, k2) := sync_poll (asink_fuel (os_w s1)) SStart w1 (os_w s1) in
+          ([], gevs, sp, w2, with_sink s1 k2)
+  | e :: t =>
+      let '(evs, c1, g1, w1, s1) := aw_write_call_ops calls gaps e w s in
+      let '(rest, fin, sp, w2, s2) := aw_run_ops c1 g1 t w1 s1 in
+      (evs :: rest, fin, sp, w2, s2)
+  end.
+
+(* ------------------------------------------------------------------------------------------ *)
 (* Instances run by the correspondence driver *)
 Definition aio_read_run (max : N) (ok : list bytes) (data : bytes) (sched : list atok) (calls : list ctok)
   : list (outcome bytes) * areader * asrc :=
@@ -333,3 +470,8 @@ Definition aio_read_run (max : N) (ok : list bytes) (data : bytes) (sched : list
 Definition aio_write_run (max : N) (es : list enc_res) (sched : list ktok) (calls : list ctok)
   : list (list wev) * spoll * awriter * asink :=
   aw_run calls es (mkawriter [] max WNone) (mkasink [] sched 0).
+
+Definition aio_write_run_ops (max : N) (es : list enc_res) (sched : list ktok) (fsched : list ftok)
+    (calls : list ctok) (gaps : list (list cop))
+  : list (list oev * list oev) * list oev * spoll * awriter * osink :=
+  aw_run_ops calls gaps es (mkawriter [] max WNone) (mkosink (mkasink [] sched 0) (mkfsink fsched 0)).
